@@ -129,9 +129,18 @@ func (s *sim) consumedByModel() int { return s.nextLine }
 // precond says whether a is enabled in the current state.
 func (s *sim) precond(a Action) error {
 	switch a.K {
-	case "start_in", "start_out", "start_io":
+	case "close_trans":
+		at := s.att(a.A)
+		if at == nil || !at.returned || at.closedTrans || at.closeDue {
+			return errors.New("nothing to close")
+		}
+		return nil
+	case "start_in", "start_out", "start_io", "burst_io":
 		if len(s.atts) >= 250 {
 			return errors.New("too many attempts")
+		}
+		if a.K == "burst_io" && (a.C < 2 || a.C > 8) {
+			return errors.New("burst size")
 		}
 		if a.K != "start_out" {
 			switch a.S {
@@ -152,7 +161,12 @@ func (s *sim) precond(a Action) error {
 			return nil
 		}
 		if s.busy != nil && s.busy.logPark == nil {
-			return errors.New("a lock section is in progress")
+			// the shutdown goroutine alone may be let go while a lock section
+			// is blocked on the stalled terminal: code that takes the lock
+			// waits for it (quiesce copes with that one mutex wait)
+			if !(a.S == "shutdown" && s.cfg.HeldShut && len(s.busyStack) == 1 && s.shutPark != nil) {
+				return errors.New("a lock section is in progress")
+			}
 		}
 		if len(s.busyStack) >= 3 {
 			return errors.New("too many nested lock sections")
@@ -245,12 +259,33 @@ func (s *sim) apply(a Action) {
 		w := at.w.iface()
 		s.spawn(at, func() { s.b.ConnectInOut(at.ctx, s.logger(at), at.addr, w, at.r) })
 		s.probes["io_attempts"]++
+	case "burst_io":
+		// several requests within one step: their set-up code (everything up
+		// to the first serialisation point) runs concurrently
+		for i := 0; i < a.C; i++ {
+			at := s.newAttempt("io")
+			at.in = &half{att: at, dir: dirIn, plainHi: -1}
+			at.out = &half{att: at, dir: dirOut, plainHi: -1}
+			s.mkWriter(at, a)
+			at.r = &simReader{s: s, att: at}
+			w := at.w.iface()
+			s.spawn(at, func() { s.b.ConnectInOut(at.ctx, s.logger(at), at.addr, w, at.r) })
+			s.probes["io_attempts"]++
+		}
+		s.probes["io_bursts"]++
+	case "close_trans":
+		s.att(a.A).closeDue = true
+		s.probes["transport_closed_late"]++
 	case "grant":
 		if a.S == "shutdown" {
 			p := s.shutPark
 			s.shutPark = nil
 			s.m.shutdown = true
 			s.shutDone = true
+			if s.busy != nil {
+				s.heldShut = true
+				s.probes["shutdown_while_lock_section_blocked"]++
+			}
 			close(p.ch)
 			return
 		}
@@ -407,10 +442,29 @@ func (s *sim) floodStalled(h *half) bool {
 	return h.att.r != nil && h.att.r.parked == nil && len(s.och) == cap(s.och) && !s.cfg.AutoDrain
 }
 
+// quiesce waits until nothing in the bubble can run.  After the shutdown was
+// let go while a lock section was blocked, its goroutine may wait for the
+// broker's lock, which synctest does not count as blocked: those steps poll.
+func (s *sim) quiesce() {
+	if s.heldShut {
+		n, ok := simkit.WaitAllowMutex()
+		if !ok {
+			s.harnessErr = "no quiescence (with a mutex waiter tolerated) within ten seconds"
+			return
+		}
+		if n > 0 {
+			s.probes["steps_with_shutdown_waiting_for_lock"]++
+			return
+		}
+		s.heldShut = false
+	}
+	synctest.Wait()
+}
+
 // settle runs the code to quiescence and collects what happened.
 func (s *sim) settle() {
 	for i := 0; ; i++ {
-		synctest.Wait()
+		s.quiesce()
 		again := false
 		s.mu.Lock()
 		// callers that have returned: their transports are now closed, as
@@ -421,7 +475,7 @@ func (s *sim) settle() {
 				at.returnedStep = s.step
 				s.obs("ret %d", at.id)
 			}
-			if at.returned && !at.closedTrans {
+			if at.returned && !at.closedTrans && (!s.cfg.LateClose || s.draining || s.tearingDown || at.closeDue) {
 				at.closedTrans = true
 				s.leakDue = true
 				if at.w != nil {
